@@ -61,7 +61,7 @@ fn g(opts: Vec<OptD>, pos: Vec<PosD>, sub: Option<SubD>) -> Grammar {
 }
 fn shape(name: &'static str, mut gr: Grammar, parse: fn(&[&'static UnixStr]) -> crate::Outcome, helps: fn() -> Vec<String>) -> Shape {
     number(&mut gr, &mut 0);
-    Shape { name, g: gr, parse, helps, key_prefix: "" }
+    Shape { name, g: gr, parse, helps, key_prefix: "", strict_repeats: false }
 }
 
 // ---- 1. required option, long name only, &'static UnixStr -------------------
@@ -647,6 +647,7 @@ pub fn all() -> Vec<Shape> {
     v.extend(collisions());
     v.extend(echoes());
     v.extend(spellings());
+    v.extend(audit());
     v
 }
 
@@ -1282,5 +1283,143 @@ fn spellings() -> Vec<Shape> {
             run::<TagSub>,
             || vec![help_of::<TagSub>(), help_of::<Do2Args>()],
         ),
+    ]
+}
+
+// ===========================================================================
+// Shapes pinning the deviations an audit of the unchanged derive reported (2026-10-03).
+// Each declaration below is the grammar the SOURCE TEXT declares; the keys these shapes
+// raise are the pinned findings.
+
+// ---- 30. exactly one command, single-valued options (audit 1) -------------------
+
+#[derive(ArgParse)]
+#[cli(help_path = "svc")]
+struct Svc {
+    #[cli(long = "num")]
+    num: i32,
+    #[cli(long = "name")]
+    name: Option<&'static str>,
+    #[cli(subcommand)]
+    cmd: SvcCmd,
+}
+#[derive(Subcommand)]
+enum SvcCmd {
+    Start,
+    Stop,
+    Purge(PurgeArgs),
+}
+#[derive(ArgParse)]
+#[cli(help_path = "svc, purge")]
+struct PurgeArgs {
+    #[cli(short = "f")]
+    force: bool,
+}
+impl ToM for PurgeArgs {
+    fn to_m(&self) -> M {
+        M { opts: vec![F::Flag(self.force)], pos: vec![], sub: None }
+    }
+}
+impl ToM for Svc {
+    fn to_m(&self) -> M {
+        let sub = match &self.cmd {
+            SvcCmd::Start => unit(0),
+            SvcCmd::Stop => unit(1),
+            SvcCmd::Purge(x) => with(2, x),
+        };
+        M { opts: vec![one(vi(self.num)), F::One(self.name.map(vs))], pos: vec![], sub: Some(sub) }
+    }
+}
+
+// ---- 31. optional positional declared before a required one (audit 2) ----------
+
+#[derive(ArgParse)]
+#[cli(help_path = "cp")]
+struct OptPosFirst {
+    first: Option<i32>,
+    second: i32,
+}
+impl ToM for OptPosFirst {
+    fn to_m(&self) -> M {
+        M { opts: vec![], pos: vec![self.first.map(vi), Some(vi(self.second))], sub: None }
+    }
+}
+
+// ---- 32-34. an attribute between #[cli(..)] and the field (audit 3) -------------
+
+#[derive(ArgParse)]
+#[cli(help_path = "doc-after")]
+struct AttrDocAfter {
+    #[cli(long = "count")]
+    /// How many times
+    count: i32,
+}
+impl ToM for AttrDocAfter {
+    fn to_m(&self) -> M {
+        M { opts: vec![one(vi(self.count))], pos: vec![], sub: None }
+    }
+}
+#[derive(ArgParse)]
+#[cli(help_path = "allow-after")]
+struct AttrAllowAfter {
+    #[cli(long = "out")]
+    #[allow(unused)]
+    out: Option<&'static str>,
+}
+impl ToM for AttrAllowAfter {
+    fn to_m(&self) -> M {
+        M { opts: vec![F::One(self.out.map(vs))], pos: vec![], sub: None }
+    }
+}
+#[derive(ArgParse)]
+#[cli(help_path = "two-cli")]
+struct AttrTwoCli {
+    #[cli(short = "o")]
+    #[cli(long = "out")]
+    out: Option<&'static str>,
+}
+impl ToM for AttrTwoCli {
+    fn to_m(&self) -> M {
+        M { opts: vec![F::One(self.out.map(vs))], pos: vec![], sub: None }
+    }
+}
+
+// ---- 35. #[cli(arg = "<identifier of another field>")] (audit 6a) ---------------
+
+#[derive(ArgParse)]
+#[cli(help_path = "mv")]
+struct ArgSwap {
+    #[cli(arg = "dst")]
+    src: &'static str,
+    #[cli(arg = "src")]
+    dst: &'static str,
+}
+impl ToM for ArgSwap {
+    fn to_m(&self) -> M {
+        M { opts: vec![], pos: vec![Some(vs(self.src)), Some(vs(self.dst))], sub: None }
+    }
+}
+
+fn audit() -> Vec<Shape> {
+    let mut svc = shape(
+        "Svc",
+        g(
+            vec![o(Some("--num"), None, Req, I32, &[b"7", b"-5"]), o(Some("--name"), None, Opt, Str, &[X, b"start"])],
+            vec![],
+            Some(SubD { required: true, cmds: vec![("start", None), ("stop", None), ("purge", Some(g(vec![o(None, Some("-f"), Flag, Str, &[])], vec![], None)))] }),
+        ),
+        run::<Svc>,
+        || vec![help_of::<Svc>(), help_of::<PurgeArgs>()],
+    );
+    svc.strict_repeats = true;
+    vec![
+        svc,
+        shape("OptPosFirst", g(vec![], vec![p(false, I32, &[b"7", b"0"]), p(true, I32, &[b"7", b"0"])], None), run::<OptPosFirst>, || {
+            vec![help_of::<OptPosFirst>()]
+        }),
+        shape("AttrDocAfter", g(vec![o(Some("--count"), None, Req, I32, &[b"7", b"-5"])], vec![], None), run::<AttrDocAfter>, || vec![help_of::<AttrDocAfter>()]),
+        shape("AttrAllowAfter", g(vec![o(Some("--out"), None, Opt, Str, &[X, DX])], vec![], None), run::<AttrAllowAfter>, || vec![help_of::<AttrAllowAfter>()]),
+        shape("AttrTwoCli", g(vec![o(Some("--out"), Some("-o"), Opt, Str, &[X, DX])], vec![], None), run::<AttrTwoCli>, || vec![help_of::<AttrTwoCli>()]),
+        shape("ArgSwap", g(vec![], vec![p(true, Str, &[X, E]), p(true, Str, &[b"7", ACC])], None), run::<ArgSwap>, || vec![help_of::<ArgSwap>()]),
     ]
 }
